@@ -212,6 +212,18 @@ func buildJobConfig(jp *JobConfigPlan) *execution.JobConfig {
 			Concurrency: execution.ConcurrencySpec{Policy: execution.ConcurrencyPolicy(jp.Policy), MaxConcurrency: jp.MaxConcurrency},
 		},
 	}
+	if len(jp.TemplateLabels) > 0 {
+		jc.Spec.Template.ObjectMeta.Labels = map[string]string{}
+		for k, v := range jp.TemplateLabels {
+			jc.Spec.Template.ObjectMeta.Labels[k] = v
+		}
+	}
+	if len(jp.TemplateAnnotations) > 0 {
+		jc.Spec.Template.ObjectMeta.Annotations = map[string]string{}
+		for k, v := range jp.TemplateAnnotations {
+			jc.Spec.Template.ObjectMeta.Annotations[k] = v
+		}
+	}
 	if jc.Spec.Concurrency.Policy == "" {
 		jc.Spec.Concurrency.Policy = execution.ConcurrencyPolicyAllow
 	}
